@@ -361,8 +361,8 @@ fn comp() -> impl Strategy<Value = Comp> {
 
 pub fn path_recipe() -> impl Strategy<Value = PathRecipe> {
     prop_oneof![
-        60 => (0u8..8, vec(comp(), 0..12), 0u8..12).prop_map(|(lead, comps, trail)| PathRecipe::Walk { lead, comps, trail }),
-        30 => (any::<u16>(), 0u8..8, 0u8..12, any::<bool>()).prop_map(|(sel, lead, trail, d)| PathRecipe::Entry { sel, lead, trail, dotdot_roundtrip: d }),
+        60 => (0u8..8, vec(comp(), 0..12), 0u8..13).prop_map(|(lead, comps, trail)| PathRecipe::Walk { lead, comps, trail }),
+        30 => (any::<u16>(), 0u8..8, 0u8..13, any::<bool>()).prop_map(|(sel, lead, trail, d)| PathRecipe::Entry { sel, lead, trail, dotdot_roundtrip: d }),
         10 => any::<u8>().prop_map(PathRecipe::Raw),
     ]
 }
@@ -384,6 +384,7 @@ pub fn trail_bytes(trail: u8) -> &'static [u8] {
         8 => b"/.",
         9 => b"/..",
         10 => b"//",
+        11 => b"\0.bak",
         _ => b"/./",
     }
 }
@@ -577,7 +578,9 @@ pub enum NewPath {
     Deep { sel: u16, names: Vec<u8>, trail: u8 },
 }
 
-const FRESH: [&str; 8] = ["new0", "new1", "a", "b", "z", "..", ".", "new0/x"];
+// (the last two: a NUL inside the final component -- a C-string conversion that
+// truncates would act on "new0" resp. on the existing entry "a")
+const FRESH: [&str; 10] = ["new0", "new1", "a", "b", "z", "..", ".", "new0/x", "new0\0.tmp", "a\0b"];
 
 pub fn build_new_path(spec: &TreeSpec, r: &NewPath) -> B {
     match r {
